@@ -24,6 +24,9 @@ var checks = map[string]checkFn{
 	"C04": hand.RunC04,
 	"C05": hand.RunC05,
 	"C06": hand.RunC06,
+	"C11": hand.RunC11,
+	"C12": hand.RunC12,
+	"C13": hand.RunC13,
 }
 
 var replayers = map[string]func(v *explore.Violation) (bool, string){
